@@ -239,9 +239,6 @@ func (e *Exec) callStatic(st *State, fr *Frame, fn *ssa.Function, bindings, args
 // havoc the frame, assume ensures.
 func (e *Exec) byContract(st *State, fr *Frame, key string, ct *Contract, names []string, args []Value, rt types.Type, instr ssa.Instruction) Value {
 	e.byContr[key] = true
-	if len(ct.Ghosts) > 0 {
-		e.unsupported("call by contract of " + key + " which has ghost parameters")
-	}
 	e.ncalls++
 	callTag := fmt.Sprintf("c%d", e.ncalls)
 	env := &Env{e: e, st: st, old: st, vars: map[string]Value{}, pos: true, pkgName: ct.Pkg}
@@ -249,6 +246,36 @@ func (e *Exec) byContract(st *State, fr *Frame, key string, ct *Contract, names 
 		if i < len(args) {
 			env.vars[n] = args[i]
 		}
+	}
+	// ghost parameters of the callee: its guarantees hold for every value, so
+	// any instantiation is sound; the caller's contract may name a useful one
+	for _, g := range ct.Ghosts {
+		parts := strings.SplitN(g, " ", 2)
+		var gv Value
+		if e.contract != nil && fr.Fn == e.fn {
+			ord := e.callOrdinal(fr.Fn, instr, key)
+			for _, ga := range e.contract.GhostArgs {
+				if ga.Name == parts[0] && strings.HasSuffix(key, "."+ga.Callee) && ga.Ordinal == fmt.Sprint(ord) {
+					cenv := e.frameEnv(st, fr)
+					gv = cenv.eval(ga.E)
+				}
+			}
+		}
+		if gv == nil {
+			if fn := e.prog.funcs[key]; fn != nil {
+				if tv, err := types.Eval(e.prog.fset, fn.Pkg.Pkg, fn.Pos(), parts[1]); err == nil {
+					gv = e.materialize(fmt.Sprintf("%s!%s.ghost_%s", sanitize(key), callTag, parts[0]), tv.Type)
+				}
+			}
+		}
+		if gv == nil {
+			e.unsupported("cannot instantiate ghost parameter " + parts[0] + " of " + key)
+			continue
+		}
+		if vi, ok := gv.(VInt); ok && vi.Untyped {
+			gv = coerceUntyped(vi, 64, false)
+		}
+		env.vars[parts[0]] = gv
 	}
 	short := key
 	for i, rq := range ct.Requires {
@@ -363,6 +390,27 @@ func (env *Env) bindResult(res Value) {
 	}
 	env.vars["result"] = res
 	env.vars["result0"] = res
+}
+
+// callOrdinal numbers a call instruction among the calls of the same callee in
+// its function (block order).
+func (e *Exec) callOrdinal(fn *ssa.Function, instr ssa.Instruction, key string) int {
+	n := 0
+	for _, b := range fn.Blocks {
+		for _, in := range b.Instrs {
+			ci, ok := in.(ssa.CallInstruction)
+			if !ok {
+				continue
+			}
+			if cal := ci.Common().StaticCallee(); cal != nil && fnKey(cal) == key {
+				n++
+				if in == instr {
+					return n
+				}
+			}
+		}
+	}
+	return 0
 }
 
 // havocReachable havocs every field of objects directly referenced by args.
